@@ -730,4 +730,429 @@ theorem alpha_settingsToDict {ss : List Setting} (h : ∀ s ∈ ss, isGroupTxt s
       feed_groupTxt hs]
 
 
+/-- what a dict built by `settings_to_dict` from group texts looks like: keys pairwise distinct, every
+    entry is a group text filed under the effect its first code applies -/
+def DictOK (d : PyDict) : Prop :=
+  d.Pairwise (fun a b => a.1 ≠ b.1) ∧
+  ∀ kv ∈ d, isGroupTxt kv.2.txt = true ∧ SettingTxt.initialParam kv.2.txt = some (kv.1, Gen.fnApply)
+
+theorem dictOK_nil : DictOK [] := ⟨List.Pairwise.nil, by simp⟩
+
+theorem mem_insert {d : PyDict} {e : Nat} {s : Setting} {kv : Nat × Setting} (h : kv ∈ d.insert e s) :
+    kv = (e, s) ∨ kv ∈ d := by
+  induction d with
+  | nil => simp [PyDict.insert] at h; exact .inl h
+  | cons x rest ih =>
+    obtain ⟨k', v'⟩ := x
+    by_cases hk : k' = e
+    · subst hk
+      simp only [PyDict.insert, beq_self_eq_true, if_true, List.mem_cons] at h
+      rcases h with h | h
+      · exact .inl h
+      · exact .inr (by simp [h])
+    · have hk' : (k' == e) = false := by simpa using hk
+      simp only [PyDict.insert, hk', Bool.false_eq_true, if_false, List.mem_cons] at h
+      rcases h with h | h
+      · subst h; exact .inr (by simp)
+      · rcases ih h with h | h
+        · exact .inl h
+        · exact .inr (by simp [h])
+
+theorem pairwise_insert {d : PyDict} (h : d.Pairwise (fun a b => a.1 ≠ b.1)) (e : Nat) (s : Setting) :
+    (d.insert e s).Pairwise (fun a b => a.1 ≠ b.1) := by
+  induction d with
+  | nil => simp [PyDict.insert]
+  | cons x rest ih =>
+    obtain ⟨k', v'⟩ := x
+    rw [List.pairwise_cons] at h
+    by_cases hk : k' = e
+    · subst hk
+      simp only [PyDict.insert, beq_self_eq_true, if_true]
+      exact List.pairwise_cons.2 ⟨h.1, h.2⟩
+    · have hk' : (k' == e) = false := by simpa using hk
+      simp only [PyDict.insert, hk', Bool.false_eq_true, if_false]
+      refine List.pairwise_cons.2 ⟨?_, ih h.2⟩
+      intro b hb
+      rcases mem_insert hb with hb | hb
+      · subst hb; exact hk
+      · exact h.1 b hb
+
+theorem dictOK_insert {d : PyDict} (h : DictOK d) {e : Nat} {s : Setting} (hs : isGroupTxt s.txt = true)
+    (hi : SettingTxt.initialParam s.txt = some (e, Gen.fnApply)) : DictOK (d.insert e s) := by
+  refine ⟨pairwise_insert h.1 e s, ?_⟩
+  intro kv hkv
+  rcases mem_insert hkv with hkv | hkv
+  · subst hkv; exact ⟨hs, hi⟩
+  · exact h.2 kv hkv
+
+theorem dictOK_erase {d : PyDict} (h : DictOK d) (e : Nat) : DictOK (d.erase e) :=
+  ⟨h.1.filter _, fun kv hkv => h.2 kv (List.mem_filter.1 hkv).1⟩
+
+theorem dictOK_dictStep {d : PyDict} (h : DictOK d) {s : Setting} (hs : isGroupTxt s.txt = true) :
+    DictOK (dictStep d s) := by
+  unfold dictStep
+  split
+  · exact h
+  · rename_i e fn hi
+    split
+    · rename_i hf
+      have : fn = Gen.fnApply := by simpa using hf
+      subst this
+      exact dictOK_insert h hs hi
+    · split
+      · exact dictOK_erase h e
+      · exact dictOK_nil
+
+theorem dictOK_settingsToDict {ss : List Setting} (h : ∀ s ∈ ss, isGroupTxt s.txt = true) {old : PyDict}
+    (ho : DictOK old) : DictOK (settingsToDict ss old) := by
+  induction ss generalizing old with
+  | nil => exact ho
+  | cons s ss ih =>
+    rw [settingsToDict_cons]
+    exact ih (fun x hx => h x (by simp [hx])) (dictOK_dictStep ho (h s (by simp)))
+
+theorem isGroupTxt_zero : isGroupTxt ['0'] = true := by decide
+
+
+/-! ## texts made by `parse_graphic_sequence`: `';'.join(str(c) for c in group)` -/
+
+/-- the text of a group of codes -/
+def joinNats (l : List Nat) : Str := joinSep [';'] (l.map Py.natStr)
+
+theorem intStr_natCast (n : Nat) : Py.intStr (n : Int) = Py.natStr n := by
+  have : ¬ ((n : Int) < 0) := by omega
+  simp [Py.intStr, this]
+
+theorem joinInts_natCast (l : List Nat) : joinInts (l.map (fun c => ((c : Nat) : Int))) = joinNats l := by
+  simp [joinInts, joinNats, semi, List.map_map, Function.comp_def, intStr_natCast]
+
+theorem natStr_noSemi (n : Nat) : ∀ c ∈ Py.natStr n, c ≠ ';' :=
+  fun c hc => ne_semi_of_isDigit ((natStr_spec n).2.1 c hc)
+
+theorem isdigit_natStr (n : Nat) : Py.isdigit (Py.natStr n) = true :=
+  isdigit_iff.2 ⟨(natStr_spec n).1, (natStr_spec n).2.1⟩
+
+theorem split_joinNats {l : List Nat} (h : l ≠ []) : Py.splitOnChar ';' (joinNats l) = l.map Py.natStr := by
+  apply splitOnChar_joinSep
+  · simpa using h
+  · intro a ha
+    obtain ⟨n, _, rfl⟩ := List.mem_map.1 ha
+    exact natStr_noSemi n
+
+theorem split_natStr (n : Nat) : Py.splitOnChar ';' (Py.natStr n) = [Py.natStr n] :=
+  splitOnChar_noSep (natStr_noSemi n)
+
+theorem joinNats_single (n : Nat) : joinNats [n] = Py.natStr n := rfl
+
+theorem items_joinNats {l : List Nat} (h : l ≠ []) : ∀ it ∈ Py.splitOnChar ';' (joinNats l), Py.isdigit it = true := by
+  rw [split_joinNats h]
+  intro it hit
+  obtain ⟨n, _, rfl⟩ := List.mem_map.1 hit
+  exact isdigit_natStr n
+
+theorem valsOf_joinNats {l : List Nat} (h : l ≠ []) : valsOf (joinNats l) = l := by
+  rw [valsOf, split_joinNats h, List.map_map]
+  conv => rhs; rw [← List.map_id l]
+  apply List.map_congr_left
+  intro n _
+  exact (natStr_spec n).2.2
+
+theorem params_joinNats {l : List Nat} (h : l ≠ []) : Term.params (joinNats l) = l.map some := by
+  rw [params_of_digits (items_joinNats h), valsOf_joinNats h]
+
+theorem isGroupTxt_joinNats {l : List Nat} (h : GroupVals l) : isGroupTxt (joinNats l) = true := by
+  have hne : l ≠ [] := by cases h <;> simp
+  exact isGroupTxt_of_spec (items_joinNats hne) (by rw [valsOf_joinNats hne]; exact h)
+
+theorem toList_joinNats {l : List Nat} (h : l ≠ []) :
+    SettingTxt.toList (joinNats l) = l.map (fun (c : Nat) => Code.int (c : Int)) := by
+  rw [SettingTxt.toList, split_joinNats h, List.map_map]
+  apply List.map_congr_left
+  intro n _
+  have hs := natStr_spec n
+  simp [strip_digits hs.2.1, isdigit_natStr, hs.2.2]
+
+theorem valid_joinNats (l : List Nat) : SettingTxt.valid (joinNats l) = true := by
+  have key : ∀ l : List Str, (∀ a ∈ l, ∀ c ∈ a, isTerm c = false) → ∀ c ∈ joinSep [';'] l, isTerm c = false := by
+    intro l
+    induction l with
+    | nil => intro _ c hc; simp [joinSep] at hc
+    | cons a rest ih =>
+      intro h c hc
+      cases rest with
+      | nil => exact h a (by simp) c (by simpa [joinSep] using hc)
+      | cons b rest =>
+        simp only [joinSep, List.append_assoc, List.mem_append, List.mem_singleton] at hc
+        rcases hc with hc | hc | hc
+        · exact h a (by simp) c hc
+        · subst hc; decide
+        · exact ih (fun x hx => h x (by simp [hx])) c hc
+  simp only [SettingTxt.valid, List.all_eq_true, Bool.not_eq_true']
+  apply key
+  intro a ha c hc
+  obtain ⟨n, _, rfl⟩ := List.mem_map.1 ha
+  exact isTerm_of_isDigit ((natStr_spec n).2.1 c hc)
+
+
+/-! ## the loop of `parse_graphic_sequence` -/
+
+/-- codes that open an extended-colour group -/
+def IsExt (c : Nat) : Prop := c = 38 ∨ c = 48 ∨ c = 58
+
+instance (c : Nat) : Decidable (IsExt c) := by unfold IsExt; infer_instance
+
+abbrev ci (c : Nat) : Code := Code.int (c : Int)
+
+theorem pgsFnLoop_nonExt {c : Nat} (h : ¬ IsExt c) (tl : List Code) :
+    pgsFnLoop (ci c :: tl) (c : Int) Gen.ctrlFns (1, false, false) = (1, false, false) := by
+  simp only [IsExt, not_or] at h
+  have a1 : ((c : Nat) : Int) ≠ 38 := by omega
+  have a2 : ((c : Nat) : Int) ≠ 48 := by omega
+  have a3 : ((c : Nat) : Int) ≠ 58 := by omega
+  have b1 : (38 : Int) ≠ ((c : Nat) : Int) := by omega
+  have b2 : (48 : Int) ≠ ((c : Nat) : Int) := by omega
+  have b3 : (58 : Int) ≠ ((c : Nat) : Int) := by omega
+  rw [ctrlFns_eq]
+  simp [pgsFnLoop, SettingTxt.startsWithFn, a1, a2, a3, b1, b2, b3]
+
+theorem pgsFnLoop_ext5 {c : Nat} (h : IsExt c) (tl : List Code) :
+    pgsFnLoop (ci c :: Code.int 5 :: tl) (c : Int) Gen.ctrlFns (1, false, false) = (3, true, true) := by
+  rw [ctrlFns_eq]
+  rcases h with rfl | rfl | rfl <;> simp [pgsFnLoop, SettingTxt.startsWithFn]
+
+theorem pgsFnLoop_ext2 {c : Nat} (h : IsExt c) (tl : List Code) :
+    pgsFnLoop (ci c :: Code.int 2 :: tl) (c : Int) Gen.ctrlFns (1, false, false) = (5, true, true) := by
+  rw [ctrlFns_eq]
+  rcases h with rfl | rfl | rfl <;> simp [pgsFnLoop, SettingTxt.startsWithFn]
+
+theorem pgsFnLoop_extOther {c : Nat} (h : IsExt c) (tl : List Code)
+    (h5 : tl.head? ≠ some (Code.int 5)) (h2 : tl.head? ≠ some (Code.int 2)) :
+    pgsFnLoop (ci c :: tl) (c : Int) Gen.ctrlFns (1, false, false) = (1, false, true) := by
+  rw [ctrlFns_eq]
+  cases tl with
+  | nil => rcases h with rfl | rfl | rfl <;> simp [pgsFnLoop, SettingTxt.startsWithFn]
+  | cons x tl =>
+    have x5 : (x == Code.int 5) = false := by simpa using h5
+    have x2 : (x == Code.int 2) = false := by simpa using h2
+    rcases h with rfl | rfl | rfl <;> simp [pgsFnLoop, SettingTxt.startsWithFn, x5, x2]
+
+
+theorem ansiParam_ext {c : Nat} (h : IsExt c) : ∃ e, ansiParam (c : Int) = some (e, Gen.fnApply) := by
+  obtain ⟨g, hs⟩ := specEffect_of_extCode h
+  have ps := param_spec c
+  rw [hs] at ps
+  generalize ansiParam (c : Int) = q at ps
+  cases ps with
+  | ext e _ _ => exact ⟨e, rfl⟩
+
+theorem dec_lt_cast (n : Nat) : decide (255 < (n : Int)) = !decide (n ≤ 255) := by
+  by_cases h : n ≤ 255
+  · have : ¬ (255 < (n : Int)) := by omega
+    simp [h, this]
+  · have : (255 < (n : Int)) := by omega
+    simp [h, this]
+
+theorem parsable_idx {c : Nat} (h : IsExt c) (n : Nat) :
+    SettingTxt.parsable (joinNats [c, 5, n]) = decide (n ≤ 255) := by
+  obtain ⟨e, he⟩ := ansiParam_ext h
+  unfold SettingTxt.parsable
+  rw [valid_joinNats, toList_joinNats (by simp)]
+  simp only [List.map_cons, List.map_nil, he, ctrlFns_eq]
+  rcases h with rfl | rfl | rfl <;>
+    simp [SettingTxt.parsableFnLoop, SettingTxt.startsWithFn, dec_lt_cast]
+
+theorem parsable_rgb {c : Nat} (h : IsExt c) (r g b : Nat) :
+    SettingTxt.parsable (joinNats [c, 2, r, g, b]) = decide (r ≤ 255 ∧ g ≤ 255 ∧ b ≤ 255) := by
+  obtain ⟨e, he⟩ := ansiParam_ext h
+  unfold SettingTxt.parsable
+  rw [valid_joinNats, toList_joinNats (by simp)]
+  simp only [List.map_cons, List.map_nil, he, ctrlFns_eq]
+  rcases h with rfl | rfl | rfl <;>
+    simp [SettingTxt.parsableFnLoop, SettingTxt.startsWithFn, dec_lt_cast]
+
+
+theorem joinInts_single (c : Nat) : joinInts [(c : Int)] = Py.natStr c := by
+  exact (joinInts_natCast [c]).trans (joinNats_single c)
+
+theorem loop_single {c : Nat} (h : ¬ IsExt c) (rest : List Code) (l : Int) (o : List Str) :
+    pgsLoop false (Code.int (c : Int) :: rest) ⟨l, [], o⟩ =
+      pgsLoop false rest ⟨0, [], o ++ [Py.natStr c]⟩ := by
+  rw [pgsLoop]
+  simp [pgsFnLoop_nonExt h, joinInts_single]
+
+theorem loop_skip {c : Nat} (h : IsExt c) (rest : List Code)
+    (h5 : rest.head? ≠ some (Code.int 5)) (h2 : rest.head? ≠ some (Code.int 2)) (l : Int) (o : List Str) :
+    pgsLoop false (Code.int (c : Int) :: rest) ⟨l, [], o⟩ = pgsLoop false rest ⟨l, [], o⟩ := by
+  rw [pgsLoop]
+  simp [pgsFnLoop_extOther h rest h5 h2]
+
+theorem loop_open5 {c : Nat} (h : IsExt c) (rest : List Code) (l : Int) (o : List Str) :
+    pgsLoop false (Code.int (c : Int) :: Code.int 5 :: rest) ⟨l, [], o⟩ =
+      pgsLoop false (Code.int 5 :: rest) ⟨2, [(c : Int)], o⟩ := by
+  rw [pgsLoop]
+  simp [pgsFnLoop_ext5 h]
+
+theorem loop_open2 {c : Nat} (h : IsExt c) (rest : List Code) (l : Int) (o : List Str) :
+    pgsLoop false (Code.int (c : Int) :: Code.int 2 :: rest) ⟨l, [], o⟩ =
+      pgsLoop false (Code.int 2 :: rest) ⟨4, [(c : Int)], o⟩ := by
+  rw [pgsLoop]
+  simp [pgsFnLoop_ext2 h]
+
+theorem loop_cont (v : Int) (rest : List Code) (l : Int) (cur : List Int) (o : List Str)
+    (hc : cur ≠ []) (hl : 1 < l) :
+    pgsLoop false (Code.int v :: rest) ⟨l, cur, o⟩ = pgsLoop false rest ⟨l - 1, cur ++ [v], o⟩ := by
+  rw [pgsLoop]
+  have : ¬ (l - 1 ≤ 0) := by omega
+  simp [hc, this]
+
+theorem loop_flush (v : Int) (rest : List Code) (l : Int) (cur : List Int) (o : List Str)
+    (hc : cur ≠ []) (hl : l ≤ 1) :
+    pgsLoop false (Code.int v :: rest) ⟨l, cur, o⟩ =
+      pgsLoop false rest ⟨l - 1, [], if SettingTxt.parsable (joinInts (cur ++ [v])) then o ++ [joinInts (cur ++ [v])] else o⟩ := by
+  rw [pgsLoop]
+  have : l - 1 ≤ 0 := by omega
+  simp [hc, this]
+
+
+/-- how `parse_graphic_sequence(codes, add_erroneous=False)` cuts a code list into groups: the
+    relation mirrors the look-ahead of a terminal (`Term.feed`) -/
+inductive Split : List Nat → List (List Nat) → Prop
+  | nil : Split [] []
+  | single (c : Nat) (rest : List Nat) (gs : List (List Nat)) :
+      ¬ IsExt c → Split rest gs → Split (c :: rest) ([c] :: gs)
+  | skip (c : Nat) (rest : List Nat) (gs : List (List Nat)) :
+      IsExt c → rest.head? ≠ some 5 → rest.head? ≠ some 2 → Split rest gs → Split (c :: rest) gs
+  | idx (c n : Nat) (rest : List Nat) (gs : List (List Nat)) :
+      IsExt c → n ≤ 255 → Split rest gs → Split (c :: 5 :: n :: rest) ([c, 5, n] :: gs)
+  | idxBad (c n : Nat) (rest : List Nat) (gs : List (List Nat)) :
+      IsExt c → ¬ n ≤ 255 → Split rest gs → Split (c :: 5 :: n :: rest) gs
+  | idxEnd (c : Nat) : IsExt c → Split [c, 5] []
+  | rgb (c r g b : Nat) (rest : List Nat) (gs : List (List Nat)) :
+      IsExt c → (r ≤ 255 ∧ g ≤ 255 ∧ b ≤ 255) → Split rest gs →
+      Split (c :: 2 :: r :: g :: b :: rest) ([c, 2, r, g, b] :: gs)
+  | rgbBad (c r g b : Nat) (rest : List Nat) (gs : List (List Nat)) :
+      IsExt c → ¬ (r ≤ 255 ∧ g ≤ 255 ∧ b ≤ 255) → Split rest gs →
+      Split (c :: 2 :: r :: g :: b :: rest) gs
+  | rgbEnd (c : Nat) (tail : List Nat) : IsExt c → tail.length < 3 → Split (c :: 2 :: tail) []
+
+theorem split_exists_aux : ∀ (n : Nat) (codes : List Nat), codes.length ≤ n → ∃ gs, Split codes gs := by
+  intro n
+  induction n with
+  | zero =>
+    intro codes h
+    have : codes = [] := List.length_eq_zero_iff.1 (by omega)
+    subst this; exact ⟨[], .nil⟩
+  | succ n ih =>
+    intro codes h
+    match codes, h with
+    | [], _ => exact ⟨[], .nil⟩
+    | c :: rest, h =>
+      simp only [List.length_cons] at h
+      by_cases hc : IsExt c
+      · match rest, h with
+        | [], _ => exact ⟨[], .skip c [] [] hc (by simp) (by simp) .nil⟩
+        | m :: rest1, h =>
+          simp only [List.length_cons] at h
+          by_cases h5 : m = 5
+          · subst h5
+            match rest1, h with
+            | [], _ => exact ⟨[], .idxEnd c hc⟩
+            | k :: rest2, h =>
+              simp only [List.length_cons] at h
+              obtain ⟨gs, hgs⟩ := ih rest2 (by omega)
+              by_cases hk : k ≤ 255
+              · exact ⟨_, .idx c k rest2 gs hc hk hgs⟩
+              · exact ⟨_, .idxBad c k rest2 gs hc hk hgs⟩
+          · by_cases h2 : m = 2
+            · subst h2
+              match rest1, h with
+              | r :: g :: b :: rest2, h =>
+                simp only [List.length_cons] at h
+                obtain ⟨gs, hgs⟩ := ih rest2 (by omega)
+                by_cases hk : r ≤ 255 ∧ g ≤ 255 ∧ b ≤ 255
+                · exact ⟨_, .rgb c r g b rest2 gs hc hk hgs⟩
+                · exact ⟨_, .rgbBad c r g b rest2 gs hc hk hgs⟩
+              | [], _ => exact ⟨[], .rgbEnd c [] hc (by simp)⟩
+              | [_], _ => exact ⟨[], .rgbEnd c _ hc (by simp)⟩
+              | [_, _], _ => exact ⟨[], .rgbEnd c _ hc (by simp)⟩
+            · obtain ⟨gs, hgs⟩ := ih (m :: rest1) (by simp; omega)
+              exact ⟨gs, .skip c _ gs hc (by simpa using h5) (by simpa using h2) hgs⟩
+      · obtain ⟨gs, hgs⟩ := ih rest (by omega)
+        exact ⟨_, .single c rest gs hc hgs⟩
+
+theorem split_exists (codes : List Nat) : ∃ gs, Split codes gs := split_exists_aux _ codes (Nat.le_refl _)
+
+theorem split_groupVals {codes : List Nat} {gs : List (List Nat)} (h : Split codes gs) :
+    ∀ g ∈ gs, GroupVals g := by
+  induction h with
+  | nil => simp
+  | single c rest gs hc _ ih =>
+    intro g hg
+    rcases List.mem_cons.1 hg with rfl | hg
+    · simp only [IsExt, not_or] at hc; exact .single c hc.1 hc.2.1 hc.2.2
+    · exact ih g hg
+  | skip c rest gs _ _ _ _ ih => exact ih
+  | idx c n rest gs hc hn _ ih =>
+    intro g hg
+    rcases List.mem_cons.1 hg with rfl | hg
+    · exact .idx c n hc hn
+    · exact ih g hg
+  | idxBad c n rest gs _ _ _ ih => exact ih
+  | idxEnd c _ => simp
+  | rgb c r g b rest gs hc hk _ ih =>
+    intro g' hg
+    rcases List.mem_cons.1 hg with rfl | hg
+    · exact .rgb c r g b hc hk.1 hk.2.1 hk.2.2
+    · exact ih g' hg
+  | rgbBad c r g b rest gs _ _ _ ih => exact ih
+  | rgbEnd c tail _ _ => simp
+
+/-- the groups kept are exactly what the terminal does not ignore -/
+theorem split_feed {codes : List Nat} {gs : List (List Nat)} (h : Split codes gs) :
+    ∀ st : TState, feed st (gs.flatten.map some) = feed st (codes.map some) := by
+  induction h with
+  | nil => intro st; rfl
+  | single c rest gs hc _ ih =>
+    intro st
+    simp only [IsExt, not_or] at hc
+    simp only [List.flatten_cons, List.map_cons, List.cons_append, List.nil_append]
+    rw [feed_single hc.1 hc.2.1 hc.2.2, ih, ← feed_single hc.1 hc.2.1 hc.2.2]
+  | skip c rest gs hc h5 h2 _ ih =>
+    intro st
+    obtain ⟨g, hg⟩ := specEffect_of_extCode hc
+    rw [List.map_cons, feed_ext_other hg, ih]
+    · cases rest <;> simp_all
+    · cases rest <;> simp_all
+  | idx c n rest gs hc hn _ ih =>
+    intro st
+    obtain ⟨g, hg⟩ := specEffect_of_extCode hc
+    simp only [List.flatten_cons, List.map_cons, List.cons_append, List.nil_append]
+    rw [feed_ext5 hg, feed_ext5 hg, ih]
+  | idxBad c n rest gs hc hn _ ih =>
+    intro st
+    obtain ⟨g, hg⟩ := specEffect_of_extCode hc
+    simp only [List.map_cons]
+    rw [feed_ext5 hg, if_neg hn, ih]
+  | idxEnd c hc =>
+    intro st
+    obtain ⟨g, hg⟩ := specEffect_of_extCode hc
+    simp only [List.flatten_nil, List.map_nil, List.map_cons]
+    rw [feed_ext5_end hg, feed_nil]
+  | rgb c r g b rest gs hc hk _ ih =>
+    intro st
+    obtain ⟨gr, hg⟩ := specEffect_of_extCode hc
+    simp only [List.flatten_cons, List.map_cons, List.cons_append, List.nil_append]
+    rw [feed_ext2 hg, feed_ext2 hg, ih]
+  | rgbBad c r g b rest gs hc hk _ ih =>
+    intro st
+    obtain ⟨gr, hg⟩ := specEffect_of_extCode hc
+    simp only [List.map_cons]
+    rw [feed_ext2 hg, if_neg hk, ih]
+  | rgbEnd c tail hc hl =>
+    intro st
+    obtain ⟨gr, hg⟩ := specEffect_of_extCode hc
+    simp only [List.flatten_nil, List.map_nil, List.map_cons]
+    rw [feed_ext2_short hg _ _ (by simpa using hl), feed_nil]
+
+
 end Eff
